@@ -235,6 +235,10 @@ func (r *Runner) execDecEnum(op *OpSpec, st *Step) *Rec {
 			continue
 		}
 		run(base[:k], "prefix", "prefix "+strconv.Itoa(k)+" of "+strconv.Itoa(len(base)))
+		// and the same prefix as a window of the buffer that holds the whole message (capacity beyond the length)
+		m := &message{fault: "prefix", bytes: base[:k], clean: base, desc: "prefix " + strconv.Itoa(k) + " of " + strconv.Itoa(len(base)) + " with the rest as spare capacity", changed: true}
+		one := r.decodeOnce(op, st, sd, m, g.placeWithTail(base[:k], base[k:]), reflect.New(rt))
+		res.Evals += one.Evals
 	}
 	mut := make([]byte, len(base))
 	for k := 0; k < len(base); k++ {
@@ -340,6 +344,13 @@ func (r *Runner) c06after(op *OpSpec, st *Step, sd *model.StructDef, m *message,
 		}
 	}
 	r.c06sweep(st, "decode")
+	if res.Cls == "ok" && op.VSeed%3 == 0 {
+		// the owner of the new object writes into it (maps, slices, byte slices, scalars): every other live object
+		// must stay what it was
+		model.Scribble(r.C, sd, dst.Elem(), 0)
+		o.snap = model.Digest(model.CanonValue(dst.Elem()))
+		r.c06sweep(st, "owner-write")
+	}
 }
 
 // c06sweep checks every invariant over all live objects after an event.
